@@ -10,18 +10,29 @@ package control
 //                                         LookupDnsRespCache, evictExpiredDnsCache/evictLRUIfFull,
 //                                         triggerBpfUpdateIfNeeded, processBpfUpdateTask)
 //
+// REAL build of package control (no dae_stub_ebpf tag; synthetic bpf2go file from translators/fakebpf).
 // The batches that syncOwner sends to domain_routing_map are observed through VerifC10Batch*Hook, three
-// package-level variables that exist only in the copy of control/bpf_stub.go that checks/c10.py generates on
-// every run (overlay REPLACE; /repo is not touched).  DomainRoutingMap is a non-nil zero-value *ebpf.Map.
+// package-level variables that exist only in the copy of control/bpf_utils.go that translators/c10wrap generates
+// on every run (overlay REPLACE; /repo is not touched): BpfMapBatchUpdate / BpfMapBatchDelete /
+// BpfMapBatchDeleteAll are renamed and wrapped, the hook gets a closure running the production function.
+// Two table modes per history: `shadow` (DomainRoutingMap is a zero-value *ebpf.Map, the hooks keep a Go map;
+// the production batch functions are not run) and `kernel map` (DomainRoutingMap is a real BPF_MAP_TYPE_HASH with
+// BPF_F_NO_PREALLOC created by this process, the production batch functions run on it through the hooks, the
+// table is read back from the kernel; small max_entries make the kernel refuse batches half-way).
+// translators/c10wrap also regenerates the DNS steps of CommitPreparedDatapath / of newControlPlane's non-delayed
+// tail from control_plane.go (verifC10CommitPreparedDatapathDNS, verifC10NewControlPlaneTailDNS).
 //
-// Two streams, both replayed by lean/DaeVerif/C10/Main.lean. Every answer line is `strict ## drift`:
+// Three streams, all replayed by lean/DaeVerif/C10/Main.lean. Every answer line is `strict ## drift`:
 // strict = what the property speaks about (call accepted or not, fingerprint of the whole table, cache
 // contents, mirror flag), drift = bookkeeping (batch shapes, refresh queue, expiry/refresh/LRU policy, stamps).
-//   c10t : tnew | tupd <ok|uf|df> <owner> <bmlen> <bits> <ans>* | trm <ok|uf|df> <owner> | tnil upd|rm |
-//          tnobpf upd|rm <owner> | tnomap <owner> <bits> <ans>* | tdump            (uf/df: the update / delete batch syscall fails)
-//   c10c : cnew <opt> <optTtl> <max> <real> | put <stored> <key|~> … | putf <key|~> <fqdn> <qtype> <ttl> <fixedTtl|-> <bits> <ans>* | del <key> |
-//          fam <base> <evicted keys>* | look <key> <ignoreFixed> <evicted> <queued> | jan <evicted keys>* |
-//          sleep <ns> | work | touch <key> | hot <key> <packed> <evicted> <queued> | reload <key=bits>* | cdump
+//   c10t : tnew [cap] | order <key>* | tupd <ok|uf|df> <owner> <bmlen> <bits> <ans>* | trm <ok|uf|df> <owner> | tnil upd|rm |
+//          tnobpf upd|rm <owner> | tnomap <owner> <bits> <ans>* | tclear | tdump   (uf/df: the update / delete batch syscall fails;
+//          cap: max_entries of the real kernel map; order: the order in which the next update batch was sent)
+//   c10c : cnew <opt> <optTtl> <max> <real> | [!uf:<owner>|!df:<owner>]* <op> where <op> = put <stored> <key|~> <fqdn> <qtype> <ttl>
+//          <fixedTtl|-> <bits> <ans>* | del <key> | fam <base> <evicted keys>* | look <key> <ignoreFixed> <evicted> <queued> |
+//          jan <evicted keys>* | sleep <ns> | work | touch <key> | hot <key> <packed> <evicted> <queued> | reload <key=bits>* | cdump
+//          (!uf / !df: an injected failure of the update / delete batch fired inside that owner's tracker call)
+//   c10s : snew <n> | scall <tid> <owner> <bits|rm> <ans>* | sgo <tid> | sdump   (goroutine schedules; the batch hooks are yield points)
 // Virtual time: every cache history runs inside a testing/synctest bubble; every cache op starts 1 ns after
 // the previous one (no equal LRU stamps => runs are reproducible for a seed).
 
@@ -34,9 +45,13 @@ import (
 	"net"
 	"os"
 	"path/filepath"
+	"reflect"
+	"runtime"
 	"sort"
 	"strconv"
 	"strings"
+	"sync"
+	"sync/atomic"
 	"testing"
 	"testing/synctest"
 	"time"
@@ -61,23 +76,95 @@ type c10Call struct {
 }
 
 type c10Observer struct {
-	shadow map[[16]byte][32]uint32 // what domain_routing_map holds
-	cur    *c10Call
-	calls  []*c10Call
-	stats  *VStats
-	// one-shot failure injection: the next batch update / delete syscall fails (atomically)
-	failUpd, failDel bool
-	injected         bool // an injected failure fired since the flag was last cleared
+	shadow map[[16]byte][32]uint32 // what domain_routing_map holds (shadow mode)
+	// kernel-map mode: the table IS this real BPF hash map, the production batch functions run on it
+	kmap  *ebpf.Map
+	cur   *c10Call
+	calls []*c10Call
+	stats *VStats
+	// failure injection: the next batch update / delete syscall fails (atomically), or the n-th from now
+	failUpd, failDel     bool
+	failUpdAt, failDelAt int
+	injected             bool // an injected failure fired since the flag was last cleared
 	// a delete batch named a key the table does not hold: on a real kernel the batch stops there
 	badDelete bool
+	fired     []string   // "uf" / "df" for every injected failure that fired
+	lastOrder [][16]byte // keys of the last domain update batch, in the order they were sent
+	natural   bool       // the kernel refused a batch by itself (capacity)
+	sched     *c10Sched  // schedule stream: the hooks are yield points
 }
 
 var errC10Injected = errors.New("c10: injected batch failure")
 
 func c10KeyBytes(k [4]uint32) [16]byte { return *(*[16]byte)(unsafe.Pointer(&k)) }
 
+const c10ProductionMaxEntries = 65536 // MAX_DOMAIN_ROUTING_NUM
+
+var c10KmapUnavailable bool
+
+// switch to a fresh real kernel hash map (same type, flags, key and value sizes as domain_routing_map)
+func (o *c10Observer) useKernelMap(maxEntries int) bool {
+	o.useShadow()
+	m, err := ebpf.NewMap(&ebpf.MapSpec{Type: ebpf.Hash, KeySize: 16, ValueSize: uint32(unsafe.Sizeof(bpfDomainRouting{})),
+		MaxEntries: uint32(maxEntries), Flags: 1 /* BPF_F_NO_PREALLOC */})
+	if err != nil {
+		c10KmapUnavailable = true
+		o.stats.Inc("kmap.unavailable_no_bpf_privilege")
+		return false
+	}
+	o.kmap = m
+	return true
+}
+
+func (o *c10Observer) useShadow() {
+	if o.kmap != nil {
+		_ = o.kmap.Close()
+		o.kmap = nil
+	}
+	o.shadow = map[[16]byte][32]uint32{}
+}
+
+// the map handed to the code under test
+func (o *c10Observer) domainMap() *ebpf.Map {
+	if o.kmap != nil {
+		return o.kmap
+	}
+	return new(ebpf.Map)
+}
+
+// what domain_routing_map holds right now
+func (o *c10Observer) table() map[[16]byte][32]uint32 {
+	if o.kmap == nil {
+		return o.shadow
+	}
+	res := map[[16]byte][32]uint32{}
+	var k [4]uint32
+	var v bpfDomainRouting
+	it := o.kmap.Iterate()
+	for it.Next(&k, &v) {
+		res[c10KeyBytes(k)] = v.Bitmap
+	}
+	if err := it.Err(); err != nil {
+		panic("c10: iterating the kernel map: " + err.Error())
+	}
+	return res
+}
+
+func (o *c10Observer) noteFired(kind string) {
+	o.injected = true
+	o.fired = append(o.fired, kind)
+}
+
+// the kinds ("uf" / "df") of the injected failures that fired; disarms what did not fire
+func (o *c10Observer) takeFired() []string {
+	f := o.fired
+	o.fired = nil
+	o.failUpd, o.failDel, o.failUpdAt, o.failDelAt = false, false, 0, 0
+	return f
+}
+
 func (o *c10Observer) install() {
-	VerifC10BatchUpdateHook = func(m *ebpf.Map, keys interface{}, values interface{}) (int, error) {
+	VerifC10BatchUpdateHook = func(m *ebpf.Map, keys interface{}, values interface{}, real func() (int, error)) (int, error) {
 		ks, isDomain := keys.([][4]uint32)
 		if !isDomain {
 			return 0, nil // another map (routing_map during BuildKernspace): not C10's subject
@@ -86,42 +173,87 @@ func (o *c10Observer) install() {
 		if len(ks) != len(vs) {
 			panic("c10: keys/values length differ")
 		}
-		if o.failUpd {
+		if o.sched != nil {
+			o.sched.park(c10ParkedUpd) // yield point: inside syncOwner, before the update batch is written
+		}
+		fail := o.failUpd
+		if o.failUpdAt > 0 {
+			if o.failUpdAt--; o.failUpdAt == 0 {
+				fail = true
+			}
+		}
+		if fail {
 			o.failUpd = false
-			o.injected = true
+			o.noteFired("uf")
 			o.stats.Inc("inject.update_batch_failed")
 			return 0, errC10Injected
 		}
-		if o.cur == nil { // a call the harness does not bracket (cache stream): only the table is followed
+		o.lastOrder = o.lastOrder[:0]
+		seen := map[[16]byte]bool{}
+		for _, k := range ks {
+			kb := c10KeyBytes(k)
+			if seen[kb] {
+				panic("c10: duplicate key in one update batch")
+			}
+			seen[kb] = true
+			o.lastOrder = append(o.lastOrder, kb)
+		}
+		n := len(ks)
+		if o.kmap != nil {
+			if m != o.kmap {
+				panic("c10: update batch sent to a map that is not this generation's domain_routing_map")
+			}
+			var err error
+			if n, err = real(); err != nil { // the PRODUCTION BpfMapBatchUpdate on the real kernel map
+				o.natural = true
+				o.stats.Inc("inject.update_batch_refused_by_kernel")
+				return n, err
+			}
+		} else {
 			for i, k := range ks {
 				o.shadow[c10KeyBytes(k)] = vs[i].Bitmap
 			}
-			return len(ks), nil
 		}
-		o.cur.nUpd++
-		o.cur.order = append(o.cur.order, "u")
-		for i, k := range ks {
-			kb := c10KeyBytes(k)
-			if _, dup := o.cur.ups[kb]; dup {
-				panic("c10: duplicate key in one update batch")
+		if o.cur != nil {
+			o.cur.nUpd++
+			o.cur.order = append(o.cur.order, "u")
+			for i, k := range ks {
+				o.cur.ups[c10KeyBytes(k)] = vs[i].Bitmap
 			}
-			o.cur.ups[kb] = vs[i].Bitmap
-			o.shadow[kb] = vs[i].Bitmap
 		}
-		return len(ks), nil
+		return n, nil
 	}
-	VerifC10BatchDeleteHook = func(m *ebpf.Map, keys interface{}) (int, error) {
+	VerifC10BatchDeleteHook = func(m *ebpf.Map, keys interface{}, real func() (int, error)) (int, error) {
 		ks, isDomain := keys.([][4]uint32)
 		if !isDomain {
 			return 0, nil // another map: not C10's subject
 		}
-		if o.failDel {
+		if o.sched != nil {
+			o.sched.park(c10ParkedDel) // yield point: inside syncOwner, before the delete batch is written
+		}
+		fail := o.failDel
+		if o.failDelAt > 0 {
+			if o.failDelAt--; o.failDelAt == 0 {
+				fail = true
+			}
+		}
+		if fail {
 			o.failDel = false
-			o.injected = true
+			o.noteFired("df")
 			o.stats.Inc("inject.delete_batch_failed")
 			return 0, errC10Injected
 		}
-		if o.cur == nil {
+		n := len(ks)
+		if o.kmap != nil {
+			if m != o.kmap {
+				panic("c10: delete batch sent to a map that is not this generation's domain_routing_map")
+			}
+			var err error
+			if n, err = real(); err != nil { // the PRODUCTION BpfMapBatchDelete on the real kernel map
+				o.natural = true
+				return n, err
+			}
+		} else {
 			for _, k := range ks {
 				kb := c10KeyBytes(k)
 				if _, has := o.shadow[kb]; !has {
@@ -129,21 +261,29 @@ func (o *c10Observer) install() {
 				}
 				delete(o.shadow, kb)
 			}
-			return len(ks), nil
 		}
-		o.cur.nDel++
-		o.cur.order = append(o.cur.order, "d")
-		for _, k := range ks {
-			kb := c10KeyBytes(k)
-			o.cur.dels = append(o.cur.dels, kb)
-			if _, has := o.shadow[kb]; !has {
-				o.badDelete = true
+		if o.cur != nil {
+			o.cur.nDel++
+			o.cur.order = append(o.cur.order, "d")
+			for _, k := range ks {
+				o.cur.dels = append(o.cur.dels, c10KeyBytes(k))
 			}
-			delete(o.shadow, kb)
 		}
-		return len(ks), nil
+		return n, nil
 	}
-	VerifC10BatchDeleteAllHook = func(m *ebpf.Map) error {
+	VerifC10BatchDeleteAllHook = func(m *ebpf.Map, real func() error) error {
+		if o.kmap != nil {
+			if m != o.kmap {
+				panic("c10: delete-all sent to a map that is not this generation's domain_routing_map")
+			}
+			// the PRODUCTION BpfMapBatchDeleteAll (batch lookup in chunks of 256, deletes in chunks of 1024); its
+			// chunk deletes come back through the delete hook, which must not count them as a syncOwner batch
+			saveCur, saveAt, saveSched := o.cur, o.failDelAt, o.sched
+			o.cur, o.failDelAt, o.sched = nil, 0, nil
+			err := real()
+			o.cur, o.failDelAt, o.sched = saveCur, saveAt, saveSched
+			return err
+		}
 		for k := range o.shadow {
 			delete(o.shadow, k)
 		}
@@ -254,12 +394,13 @@ func c10FpKeys(ks [][16]byte) uint64 {
 
 // size and fingerprint of the whole table, compared on every line
 func (o *c10Observer) tableFp() string {
-	return fmt.Sprintf("k=%d t=%d", len(o.shadow), c10FpPairs(o.shadow))
+	t := o.table()
+	return fmt.Sprintf("k=%d t=%d", len(t), c10FpPairs(t))
 }
 
 func (o *c10Observer) kernelStr() string {
 	var ents []string
-	for k, v := range o.shadow {
+	for k, v := range o.table() {
 		ents = append(ents, hex.EncodeToString(k[:])+"="+c10Bits(v[:]))
 	}
 	sort.Strings(ents)
@@ -469,9 +610,9 @@ func c10ParseBits(tok string, words int) []uint32 {
 // ---------------------------------------------------------------------------------------------
 // stream T : the tracker through BatchUpdateDomainRouting / BatchRemoveDomainRouting
 
-func c10NewCore() *controlPlaneCore {
+func c10NewCore(m *ebpf.Map) *controlPlaneCore {
 	core := &controlPlaneCore{domainRouting: newDomainRoutingTracker()}
-	core.bpf.Store(&bpfObjects{bpfMaps: bpfMaps{DomainRoutingMap: new(ebpf.Map)}})
+	core.bpf.Store(&bpfObjects{bpfMaps: bpfMaps{DomainRoutingMap: m}})
 	return core
 }
 
@@ -483,6 +624,10 @@ func c10ErrTok(err error) string {
 	case errors.Is(err, errC10Injected) && strings.Contains(err.Error(), "update"):
 		return "update-failed"
 	case errors.Is(err, errC10Injected):
+		return "delete-failed"
+	case strings.HasPrefix(err.Error(), "update domain_routing_map:"): // the kernel refused the batch (capacity)
+		return "update-failed"
+	case strings.HasPrefix(err.Error(), "delete domain_routing_map:"):
 		return "delete-failed"
 	case strings.Contains(err.Error(), "domain bitmap length"):
 		return "bitmap-len"
@@ -559,12 +704,29 @@ func c10RunTrackerStream(t *testing.T, stats *VStats) {
 	g := &c10Gen{r: r, stats: stats}
 	histories := 400
 	if VThorough() {
-		histories = 10000
+		histories = 6000
 	}
 	for h := 0; h < histories; h++ {
-		core := c10NewCore()
-		obs.shadow = map[[16]byte][32]uint32{}
-		st.Emit("tnew", c10Line("ok", ""))
+		// table mode of this history: shadow, or a real kernel hash map driven by the production batch functions;
+		// a third of the kernel-map histories get a tiny max_entries so that the kernel refuses batches half-way
+		capTok, smallCap := "", false
+		obs.useShadow()
+		if h%2 == 1 {
+			cap := c10ProductionMaxEntries
+			if r.Chance(0.35) {
+				cap = r.Range(1, 6)
+				smallCap = true
+			}
+			if obs.useKernelMap(cap) {
+				capTok = " " + strconv.Itoa(cap)
+				stats.Inc("t.histories_on_real_kernel_map")
+				if smallCap {
+					stats.Inc("t.histories_with_small_map_capacity")
+				}
+			}
+		}
+		core := c10NewCore(obs.domainMap())
+		st.Emit("tnew"+capTok, c10Line("ok", ""))
 		g.newPools()
 		nOwners := r.Range(1, 6)
 		nOps := r.Range(1, 60)
@@ -580,9 +742,23 @@ func c10RunTrackerStream(t *testing.T, stats *VStats) {
 		everShared := false
 		call := func(f func() error, owner string, keepOnNil bool) string {
 			return VRecover(func() string {
+				obs.lastOrder, obs.natural = nil, false
 				obs.begin()
 				err := f()
 				obs.end(owner, err == nil && keepOnNil)
+				obs.takeFired()
+				if capTok != "" && len(obs.lastOrder) > 0 {
+					// tell the model in which order the update batch was sent (Go map iteration order): with a
+					// small capacity that decides which prefix the kernel applied before refusing
+					var ks []string
+					for _, k := range obs.lastOrder {
+						ks = append(ks, hex.EncodeToString(k[:]))
+					}
+					st.Emit("order "+strings.Join(ks, " "), c10Line("ok", ""))
+				}
+				if obs.natural {
+					stats.Inc("t.op.refused_by_kernel_for_capacity")
+				}
 				return c10Line(obs.tableFp(), "e="+c10ErrBit(err)+" class="+c10ErrTok(err)+" "+obs.takeCalls())
 			})
 		}
@@ -675,6 +851,19 @@ func c10RunTrackerStream(t *testing.T, stats *VStats) {
 				core.bpf.Store(saved)
 				stats.Inc("t.op.no_bpf_objects")
 				st.Emit("tnobpf "+which+" "+owner, out)
+			case x < 94:
+				// what every reload path does with map and tracker: the real clearReloadDomainRoutingMap (in
+				// kernel-map mode: the production BpfMapBatchDeleteAll on the real map) + tracker reset
+				out := VRecover(func() string {
+					if err := clearReloadDomainRoutingMap(core.bpf.Load()); err != nil {
+						return "err:" + err.Error()
+					}
+					core.domainRouting.reset()
+					return c10Line(obs.tableFp(), "e=ok class=ok calls=none")
+				})
+				live = map[string][]string{}
+				stats.Inc("t.op.clear")
+				st.Emit("tclear", out)
 			default:
 				st.Emit("tdump", c10Line(obs.kernelStr(), c10TrackerStr(core.domainRouting)))
 				stats.Inc("t.op.dump")
@@ -701,6 +890,7 @@ func c10RunTrackerStream(t *testing.T, stats *VStats) {
 		}
 		st.Emit("tdump", c10Line(obs.kernelStr(), c10TrackerStr(core.domainRouting)))
 	}
+	obs.useShadow()
 }
 
 // ---------------------------------------------------------------------------------------------
@@ -783,43 +973,52 @@ func (w *c10Cache) newGeneration(bpf *bpfObjects) (*controlPlaneCore, *ControlPl
 	return core, plane, opt
 }
 
+// The caller chooses the table mode beforehand (obs.useShadow() / obs.useKernelMap(cap)).
 func c10NewCacheWorld(obs *c10Observer, stats *VStats, optEnabled bool, optTtl, maxSize int, real ...bool) *c10Cache {
 	w := &c10Cache{obs: obs, stats: stats, t0: time.Now(), matcher: &c10Matcher{}, fixed: map[string]int{}}
 	w.real = len(real) > 0 && real[0]
-	obs.calls, obs.cur, obs.badDelete, obs.injected = nil, nil, false, false
+	obs.calls, obs.cur, obs.badDelete, obs.injected, obs.fired = nil, nil, false, false, nil
+	obs.failUpd, obs.failDel, obs.failUpdAt, obs.failDelAt = false, false, 0, 0
 	w.cfg = [3]int{0, optTtl, maxSize}
 	if optEnabled {
 		w.cfg[0] = 1
 	}
-	obs.shadow = map[[16]byte][32]uint32{}
+	if obs.kmap == nil {
+		obs.useShadow()
+	}
 	w.log = logrus.New()
 	w.log.SetOutput(io.Discard)
 	var opt *DnsControllerOption
-	w.core, w.plane, opt = w.newGeneration(&bpfObjects{bpfMaps: bpfMaps{DomainRoutingMap: new(ebpf.Map)}})
-	// a controller without its background goroutines: janitor runs are explicit `jan` ops, the refresh
-	// worker's channel is drained by explicit `work` ops (evictExpiredDnsCache / processBpfUpdateTask are the
-	// real functions, called on the facade the goroutines would be bound to).
-	var ctrl *DnsController
+	w.core, w.plane, opt = w.newGeneration(&bpfObjects{bpfMaps: bpfMaps{DomainRoutingMap: obs.domainMap()}})
+	ctrl := w.buildController(opt)
+	w.ctrl, w.bg = ctrl, ctrl
+	w.plane.dnsController = ctrl
+	return w
+}
+
+// A DNS controller for a generation. Real-loops mode: NewDnsController (janitor ticker, evictor, lazily the
+// refresh worker run for real). Otherwise a controller without its background goroutines: janitor runs are
+// explicit `jan` ops, the refresh worker's channel is drained by explicit `work` ops (evictExpiredDnsCache /
+// processBpfUpdateTask are the real functions, called on the facade the goroutines would be bound to).
+func (w *c10Cache) buildController(opt *DnsControllerOption) *DnsController {
 	if w.real {
-		var err error
-		if ctrl, err = NewDnsController(nil, opt); err != nil {
+		ctrl, err := NewDnsController(nil, opt)
+		if err != nil {
 			panic(err)
 		}
 		synctest.Wait() // janitor and evictor goroutines are parked on their channels
 		w.tickBase = time.Now()
-	} else {
-		ctrl = &DnsController{dnsControllerStore: newDnsControllerStore(), log: w.log, dnsForwarderIdleTTL: dnsForwarderIdleTTL}
-		if err := ctrl.TryUpdateRuntime(opt, nil); err != nil {
-			panic(err)
-		}
-		ctrl.bpfUpdateOnce.Do(func() {
-			ctrl.bpfUpdateCh = make(chan *bpfUpdateTask, 1024) // bpfUpdateQueueSize
-			ctrl.bpfUpdateStop = make(chan struct{})
-		})
+		return ctrl
 	}
-	w.ctrl, w.bg = ctrl, ctrl
-	w.plane.dnsController = ctrl
-	return w
+	ctrl := &DnsController{dnsControllerStore: newDnsControllerStore(), log: w.log, dnsForwarderIdleTTL: dnsForwarderIdleTTL}
+	if err := ctrl.TryUpdateRuntime(opt, nil); err != nil {
+		panic(err)
+	}
+	ctrl.bpfUpdateOnce.Do(func() {
+		ctrl.bpfUpdateCh = make(chan *bpfUpdateTask, 1024) // bpfUpdateQueueSize
+		ctrl.bpfUpdateStop = make(chan struct{})
+	})
+	return ctrl
 }
 
 func (w *c10Cache) rel(ns int64) int64 {
@@ -848,18 +1047,19 @@ func (w *c10Cache) mirror() (ok bool, n int) {
 	})
 	ok = true
 	var zero [32]uint32
+	table := w.obs.table()
 	for k, v := range want {
 		if v == zero {
-			if _, has := w.obs.shadow[k]; has {
+			if _, has := table[k]; has {
 				ok = false
 			}
 			continue
 		}
-		if got, has := w.obs.shadow[k]; !has || got != v {
+		if got, has := table[k]; !has || got != v {
 			ok = false
 		}
 	}
-	for k, v := range w.obs.shadow {
+	for k, v := range table {
 		if wv, has := want[k]; !has || wv == zero || v == zero {
 			ok = false
 		}
@@ -997,6 +1197,7 @@ type c10Hist struct {
 	lastTtl int
 	failed  bool // a publish failure was injected in this history
 	keys    []c10Key
+	noInject bool // probes: no injected failures
 }
 
 // every op starts one (virtual) nanosecond after the previous one
@@ -1046,6 +1247,75 @@ func (h *c10Hist) spell(name string) string {
 	return s
 }
 
+// Arm an injected batch failure for the operation that follows: the n-th update (or delete) batch the operation
+// sends to domain_routing_map fails. Not in real-loops mode (there a callback of a background goroutine could
+// consume it at a point that has no line of its own).
+func (h *c10Hist) arm(updOnly bool) {
+	if h.w.real || h.r == nil || h.noInject || !h.r.Chance(0.07) {
+		return
+	}
+	n := h.r.Range(1, 3)
+	if n == 3 {
+		n = 1
+	}
+	if updOnly || h.r.Bool() {
+		h.w.obs.failUpdAt = n
+	} else {
+		h.w.obs.failDelAt = n
+	}
+}
+
+// The failures that fired inside the operation just executed, as the prefix of its op line: `!uf:<key>` /
+// `!df:<key>`. The hooks do not know whose tracker call they are in; the failed call is the one of the touched
+// cache key whose tracker snapshot is not what a completed call would have left (cached and effective: the
+// entry's snapshot; otherwise: no snapshot).
+func (h *c10Hist) firedPrefix(core *controlPlaneCore, touched []string) string {
+	kinds := h.w.obs.takeFired()
+	if len(kinds) == 0 {
+		return ""
+	}
+	var failed []string
+	t := core.domainRouting
+	t.mu.Lock()
+	for _, key := range touched {
+		var want domainRoutingOwnerSnapshot
+		if v, ok := h.w.ctrl.dnsCache.Load(key); ok {
+			want, _ = buildDomainRoutingOwnerSnapshot(v.(*DnsCache))
+		}
+		wantEff := len(want.ips) > 0 && !isZeroDomainRoutingBitmap(want.bitmap)
+		got, has := t.owners[key]
+		same := has == wantEff
+		if same && has {
+			same = got.bitmap == want.bitmap && len(got.ips) == len(want.ips)
+			for k := range want.ips {
+				if _, ok := got.ips[k]; !ok {
+					same = false
+				}
+			}
+		}
+		if !same {
+			failed = append(failed, key)
+		}
+	}
+	t.mu.Unlock()
+	h.failed = true
+	h.stats.Inc("c.ops_with_injected_batch_failure")
+	var parts []string
+	for i, kind := range kinds {
+		owner := "?unattributed"
+		if len(failed) == len(kinds) {
+			owner = failed[i]
+		}
+		parts = append(parts, "!"+kind+":"+owner)
+		if kind == "df" {
+			h.stats.Inc("c.ops_with_failed_delete_batch")
+		} else {
+			h.stats.Inc("c.ops_with_failed_update_batch")
+		}
+	}
+	return strings.Join(parts, " ") + " "
+}
+
 func (h *c10Hist) put(k c10Key, ttl int, bm string, ans []string, unkeyed bool) {
 	h.tick()
 	w := h.w
@@ -1064,28 +1334,25 @@ func (h *c10Hist) put(k c10Key, ttl int, bm string, ans []string, unkeyed bool) 
 		keyTok = "~"
 	}
 	host := h.spell(k.name)
-	verb := "put"
 	prevObj, _ := w.ctrl.dnsCache.Load(k.key())
-	// the update batch of this put's publish fails (if it sends one). Not in real-loops mode: there the worker
-	// repairs it concurrently with the lookup that queued the refresh, which has no line of its own.
-	inject := h.r.Chance(0.04) && !w.real
+	// a batch syscall of this put's publish may fail (if it sends that batch): the entry is stored, the error returned
+	h.arm(false)
+	prefix := ""
 	out := VRecover(func() string {
 		var err error
-		w.obs.failUpd = inject
+		w.obs.injected = false
 		if unkeyed {
 			err = w.ctrl.UpdateDnsCacheTtl(host, k.qtype, rrs, nil, nil, ttl)
 		} else {
 			err = w.ctrl.UpdateDnsCacheTtlWithKey(k.key(), host, k.qtype, rrs, nil, nil, ttl)
 		}
-		w.obs.failUpd = false
 		fired := w.obs.injected
-		w.obs.injected = false
+		prefix = h.firedPrefix(w.core, []string{k.key()})
 		if err != nil {
 			if !fired {
 				return "err:" + err.Error()
 			}
-			verb = "putf" // entry stored, publish failed: the table lags until the refresh worker retries
-			h.failed = true
+			// entry stored, publish failed: the table lags until the refresh worker retries
 			h.stats.Inc("c.op.put_with_failed_publish")
 		}
 		return w.summary("")
@@ -1093,11 +1360,9 @@ func (h *c10Hist) put(k c10Key, ttl int, bm string, ans []string, unkeyed bool) 
 	// did the code store a new object under the key? (whether an answer is cached at all is not C10's subject)
 	nowObj, has := w.ctrl.dnsCache.Load(k.key())
 	stored := has && nowObj != prevObj
-	if verb == "put" {
-		verb = "put " + c10B(stored)
-		if !stored {
-			h.stats.Inc("c.op.put_not_stored")
-		}
+	verb := prefix + "put " + c10B(stored)
+	if !stored {
+		h.stats.Inc("c.op.put_not_stored")
 	}
 	op := strings.TrimRight(fmt.Sprintf("%s %s %s %d %d %s %s %s", verb, keyTok, k.name, k.qtype, ttl, fttlTok, bm, strings.Join(ans, " ")), " ")
 	h.stats.Inc("c.op.put")
@@ -1110,28 +1375,54 @@ func (h *c10Hist) put(k c10Key, ttl int, bm string, ans []string, unkeyed bool) 
 
 func (h *c10Hist) del(k c10Key) {
 	h.tick()
-	out := VRecover(func() string { h.w.ctrl.RemoveDnsRespCache(k.key()); return h.w.summary("") })
+	h.arm(false)
+	prefix := ""
+	out := VRecover(func() string {
+		h.w.ctrl.RemoveDnsRespCache(k.key())
+		prefix = h.firedPrefix(h.w.core, []string{k.key()})
+		if prefix != "" {
+			h.stats.Inc("c.op.removal_with_failed_batch")
+		}
+		return h.w.summary("")
+	})
 	h.stats.Inc("c.op.del")
-	h.st.Emit("del "+k.key(), out)
+	h.st.Emit(prefix+"del "+k.key(), out)
 }
 
 func (h *c10Hist) fam(k c10Key) {
 	h.tick()
 	w := h.w
-	out := VRecover(func() string { w.ctrl.RemoveDnsRespCacheFamily(k.base()); return w.summary("legal=1 ") })
+	h.arm(false)
+	prefix := ""
+	out := VRecover(func() string {
+		w.ctrl.RemoveDnsRespCacheFamily(k.base())
+		res := w.summary("legal=1 ")
+		prefix = h.firedPrefix(w.core, w.order)
+		if prefix != "" {
+			h.stats.Inc("c.op.removal_with_failed_batch")
+		}
+		return res
+	})
 	if len(w.order) > 1 {
 		h.stats.Inc("c.op.fam_removed_several_scopes")
 	}
 	h.stats.Inc("c.op.fam")
-	h.st.Emit(strings.TrimRight("fam "+k.base()+" "+strings.Join(w.order, " "), " "), out)
+	h.st.Emit(prefix+strings.TrimRight("fam "+k.base()+" "+strings.Join(w.order, " "), " "), out)
 }
 
 func (h *c10Hist) look(k c10Key, ig bool) {
 	h.tick()
 	w := h.w
-	before := len(w.ctrl.bpfUpdateCh)
-	out := VRecover(func() string { w.ctrl.LookupDnsRespCache(k.key(), ig); return w.summary("pred=1 ") })
-	_ = before
+	h.arm(false)
+	prefix := ""
+	out := VRecover(func() string {
+		w.ctrl.LookupDnsRespCache(k.key(), ig)
+		prefix = h.firedPrefix(w.core, []string{k.key()})
+		if prefix != "" {
+			h.stats.Inc("c.op.removal_with_failed_batch")
+		}
+		return w.summary("pred=1 ")
+	})
 	queued := len(w.synced) > 0 // NeedsBpfUpdate claimed the refresh (new lastRouteSyncNano stamp)
 	evicted := len(w.order) > 0
 	if queued {
@@ -1141,7 +1432,7 @@ func (h *c10Hist) look(k c10Key, ig bool) {
 		h.stats.Inc("c.expired_on_lookup")
 	}
 	h.stats.Inc("c.op.look")
-	h.st.Emit(fmt.Sprintf("look %s %s %s %s", k.key(), c10B(ig), c10B(evicted), c10B(queued)), out)
+	h.st.Emit(prefix+fmt.Sprintf("look %s %s %s %s", k.key(), c10B(ig), c10B(evicted), c10B(queued)), out)
 	if w.real && queued {
 		h.workReal(k.key())
 	}
@@ -1152,7 +1443,17 @@ func (h *c10Hist) jan() {
 	w := h.w
 	_, before := w.mirror()
 	// the janitor goroutine is bound to the facade that started it
-	out := VRecover(func() string { w.bg.evictExpiredDnsCache(time.Now()); return w.summary("legal=1 ") })
+	h.arm(false)
+	prefix := ""
+	out := VRecover(func() string {
+		w.bg.evictExpiredDnsCache(time.Now())
+		res := w.summary("legal=1 ")
+		prefix = h.firedPrefix(w.core, w.order)
+		if prefix != "" {
+			h.stats.Inc("c.op.removal_with_failed_batch")
+		}
+		return res
+	})
 	if len(w.order) > 0 {
 		h.stats.Add("c.janitor_evictions", len(w.order))
 		if h.maxSize > 0 && before > h.maxSize {
@@ -1160,7 +1461,7 @@ func (h *c10Hist) jan() {
 		}
 	}
 	h.stats.Inc("c.op.jan")
-	h.st.Emit(strings.TrimRight("jan "+strings.Join(w.order, " "), " "), out)
+	h.st.Emit(prefix+strings.TrimRight("jan "+strings.Join(w.order, " "), " "), out)
 }
 
 func (h *c10Hist) sleep(d time.Duration) {
@@ -1197,7 +1498,10 @@ func (h *c10Hist) workReal(key string) {
 func (h *c10Hist) work() {
 	h.tick()
 	w := h.w
+	h.arm(false)
+	prefix := ""
 	out := VRecover(func() string {
+		var touched []string
 		select {
 		case task := <-w.bg.bpfUpdateCh:
 			if cur, ok := w.ctrl.dnsCache.Load(task.cache.RouteOwnerKey); ok && cur == any(task.cache) {
@@ -1205,14 +1509,19 @@ func (h *c10Hist) work() {
 			} else {
 				h.stats.Inc("c.refresh_task_for_replaced_or_removed_entry")
 			}
+			touched = []string{task.cache.RouteOwnerKey}
 			// the worker goroutine is bound to the facade that started it
 			w.bg.processBpfUpdateTask(task, false)
 		default:
 		}
+		prefix = h.firedPrefix(w.core, touched)
+		if prefix != "" {
+			h.stats.Inc("c.op.work_with_failed_batch")
+		}
 		return w.summary("")
 	})
 	h.stats.Inc("c.op.work")
-	h.st.Emit("work", out)
+	h.st.Emit(prefix+"work", out)
 }
 
 func (h *c10Hist) touch(k c10Key) {
@@ -1233,10 +1542,16 @@ func (h *c10Hist) hot(k c10Key) {
 	if v, ok := w.ctrl.dnsCache.Load(k.key()); ok {
 		entry = v.(*DnsCache)
 	}
+	h.arm(false)
+	prefix := ""
 	out := VRecover(func() string {
 		msg := new(dnsmessage.Msg)
 		msg.SetQuestion(k.name, k.qtype)
 		w.ctrl.LookupDnsRespCache_(msg, k.key(), false)
+		prefix = h.firedPrefix(w.core, []string{k.key()})
+		if prefix != "" {
+			h.stats.Inc("c.op.removal_with_failed_batch")
+		}
 		return w.summary("pred=1 ")
 	})
 	packed := entry != nil && entry.GetPackedResponse() != nil
@@ -1253,10 +1568,33 @@ func (h *c10Hist) hot(k c10Key) {
 		h.stats.Inc("c.hot_lookup_without_packed_response")
 	}
 	h.stats.Inc("c.op.hot")
-	h.st.Emit(fmt.Sprintf("hot %s %s %s %s", k.key(), c10B(packed), c10B(evicted), c10B(queued)), out)
+	h.st.Emit(prefix+fmt.Sprintf("hot %s %s %s %s", k.key(), c10B(packed), c10B(evicted), c10B(queued)), out)
 	if w.real && queued {
 		h.workReal(k.key())
 	}
+}
+
+// DnsController.Close of a retired generation. In real-loops mode the real function (its goroutines exit at once).
+// The hand-built controller of the other mode has no goroutines to answer Close's wait, which would let 5 s of
+// virtual time pass: there only what Close does to the cache is reproduced (emptied WITHOUT callbacks; queued
+// refresh tasks die with the controller).
+func (w *c10Cache) retire(old *DnsController) {
+	if w.real {
+		_ = old.Close()
+		return
+	}
+	for len(old.bpfUpdateCh) > 0 {
+		<-old.bpfUpdateCh
+	}
+	old.bpfUpdateClosed.Store(true)
+	old.dnsCache.Range(func(key, _ any) bool { old.dnsCache.Delete(key); return true })
+}
+
+func (w *c10Cache) cachedKeys() []string {
+	var keys []string
+	w.ctrl.dnsCache.Range(func(k, _ any) bool { keys = append(keys, k.(string)); return true })
+	sort.Strings(keys)
+	return keys
 }
 
 // the bitmaps of every cached entry, by key (what the model is told a reload / rollback restored)
@@ -1275,10 +1613,10 @@ func (w *c10Cache) assignStr() string {
 
 // A reload in the order PRODUCTION composes it (staged same-port reload, dns section unchanged; cmd/run.go,
 // ControlPlane.Serve): CloneDnsCache -> NewControlPlane builds its OWN controller (NewDnsController), pending =
-// clones -> [the old generation keeps serving: `between`] -> CommitPreparedDatapath's DNS steps
-// (clearReloadDomainRoutingMap, replayDnsReloadCache into the own controller; commitInterfaceBindings needs a
-// netns and is left out) -> activatePreparedRuntime -> reuse hook = ControlPlane.ReuseDNSControllerFrom (own
-// controller closed, the OLD shared store adopted). All real functions in their real order.
+// clones -> [the old generation keeps serving: `between`] -> CommitPreparedDatapath (its statements regenerated
+// from control_plane.go in source order by translators/c10wrap, without commitInterfaceBindings, which needs a
+// netns, and startConnStateJanitor) -> activatePreparedRuntime -> reuse hook = ControlPlane.ReuseDNSControllerFrom
+// (own controller closed, the OLD shared store adopted, republish). All real functions in their real order.
 func (h *c10Hist) reload(newBitmaps map[string]string) {
 	w := h.w
 	var plane2 *ControlPlane
@@ -1293,6 +1631,8 @@ func (h *c10Hist) reload(newBitmaps map[string]string) {
 		}
 		plane2.dnsController = own
 		plane2.pendingDnsReloadCache = clones
+		plane2.preparedDatapathCommit = true // newControlPlane with delayDatapathCommit
+		plane2.sharedBpfReload = true        // the BPF objects are handed over from the running generation
 		return ""
 	})
 	// while the new generation is prepared (seconds in production) the old one keeps caching and removing
@@ -1308,28 +1648,89 @@ func (h *c10Hist) reload(newBitmaps map[string]string) {
 		h.stats.Inc("c.reloads_with_traffic_during_preparation")
 	}
 	h.tick()
+	prefix := ""
 	out := VRecover(func() string {
 		if prep != "" {
 			return prep
-		}
-		if err := clearReloadDomainRoutingMap(core2.bpf.Load()); err != nil {
-			return "err:" + err.Error()
 		}
 		w.matcher.byFqdn = map[string][]uint32{}
 		for fqdn, bm := range newBitmaps {
 			w.matcher.byFqdn[fqdn] = c10ParseBits(bm, 32)
 		}
-		plane2.replayDnsReloadCache()
+		if err := plane2.verifC10CommitPreparedDatapathDNS(); err != nil {
+			return "err:" + err.Error()
+		}
+		// what the commit published comes from a throw-away controller and is discarded by the reuse hook's
+		// republish: only a failure inside the republish is visible afterwards (update batches only: a failing
+		// delete inside clearReloadDomainRoutingMap aborts the republish, which the model has no step for)
+		h.arm(true)
 		if !plane2.ReuseDNSControllerFrom(w.plane) {
 			return "err:ReuseDNSControllerFrom refused"
 		}
 		w.matcher.byFqdn = nil
 		w.core, w.plane, w.ctrl = core2, plane2, plane2.dnsController
 		w.gen++
+		prefix = h.firedPrefix(w.core, w.cachedKeys())
+		if prefix != "" {
+			h.stats.Inc("c.op.reload_with_failed_batch")
+		}
 		return w.summary("legal=1 ")
 	})
 	h.stats.Inc("c.op.reload")
-	h.st.Emit(strings.TrimRight("reload "+w.assignStr(), " "), out)
+	h.st.Emit(prefix+strings.TrimRight("reload "+w.assignStr(), " "), out)
+}
+
+// A reload WITHOUT controller reuse (staged same-port reload whose dns section changed: no reuse hook; or a
+// non-staged reload that hands the BPF objects over): the new generation keeps the controller it built itself,
+// filled from the clone; the old generation is closed afterwards. Commit = CommitPreparedDatapath's statements
+// or the non-delayed tail of newControlPlane (both regenerated from control_plane.go). Traffic of the old
+// generation between the clone and its retirement is a hand-over window (probe c10HandoverProbe), not driven here.
+func (h *c10Hist) reloadNoReuse(newBitmaps map[string]string) {
+	w := h.w
+	h.tick()
+	delayed := h.r == nil || h.r.Bool()
+	prefix := ""
+	out := VRecover(func() string {
+		clones := w.plane.CloneDnsCache()
+		core2, plane2, opt2 := w.newGeneration(w.core.bpf.Load())
+		oldCtrl := w.ctrl
+		own := w.buildController(opt2)
+		plane2.dnsController = own
+		plane2.pendingDnsReloadCache = clones
+		plane2.sharedBpfReload = true
+		w.matcher.byFqdn = map[string][]uint32{}
+		for fqdn, bm := range newBitmaps {
+			w.matcher.byFqdn[fqdn] = c10ParseBits(bm, 32)
+		}
+		h.arm(true)
+		var err error
+		if delayed {
+			plane2.preparedDatapathCommit = true
+			err = plane2.verifC10CommitPreparedDatapathDNS()
+		} else {
+			err = verifC10NewControlPlaneTailDNS(plane2, core2)
+		}
+		w.matcher.byFqdn = nil
+		if err != nil {
+			h.w.obs.takeFired()
+			return "err:" + err.Error()
+		}
+		// cut-over: the old generation is retired (ControlPlane.Close -> closeOwnedDNSController -> DnsController.Close)
+		w.retire(oldCtrl)
+		w.core, w.plane, w.ctrl, w.bg = core2, plane2, own, own
+		w.gen++
+		prefix = h.firedPrefix(w.core, w.cachedKeys())
+		if prefix != "" {
+			h.stats.Inc("c.op.reload_with_failed_batch")
+		}
+		return w.summary("legal=1 ")
+	})
+	h.stats.Inc("c.op.reload")
+	h.stats.Inc("c.op.reload_without_controller_reuse")
+	if !delayed {
+		h.stats.Inc("c.op.reload_committed_by_constructor_tail")
+	}
+	h.st.Emit(prefix+strings.TrimRight("reloadx "+w.assignStr(), " "), out)
 }
 
 // reload ROLLBACK of the current generation: the real ControlPlane.RebuildReloadDatapath (BuildKernspace of a
@@ -1344,6 +1745,7 @@ func (h *c10Hist) rollback(newBitmaps map[string]string) {
 		return
 	}
 	h.tick()
+	prefix := ""
 	out := VRecover(func() string {
 		if w.plane.routingKernspaceSnapshot == nil {
 			w.plane.routingKernspaceSnapshot = &routingKernspaceSnapshot{rules: []bpfMatchSet{{Type: uint8(consts.MatchType_Fallback)}}}
@@ -1360,7 +1762,12 @@ func (h *c10Hist) rollback(newBitmaps map[string]string) {
 		for fqdn, bm := range newBitmaps {
 			w.matcher.byFqdn[fqdn] = c10ParseBits(bm, 32)
 		}
+		h.arm(true)
 		err := w.plane.RebuildReloadDatapath()
+		prefix = h.firedPrefix(w.core, w.cachedKeys())
+		if prefix != "" {
+			h.stats.Inc("c.op.reload_with_failed_batch")
+		}
 		w.matcher.byFqdn = nil
 		if err != nil {
 			return "err:" + err.Error()
@@ -1368,7 +1775,7 @@ func (h *c10Hist) rollback(newBitmaps map[string]string) {
 		return w.summary("legal=1 ")
 	})
 	h.stats.Inc("c.op.rollback")
-	h.st.Emit(strings.TrimRight("reload "+w.assignStr(), " "), out)
+	h.st.Emit(prefix+strings.TrimRight("reload "+w.assignStr(), " "), out)
 }
 
 var c10BpfProbe struct {
@@ -1538,7 +1945,11 @@ func c10RunCacheHistory(st *VStream, r *VRand, obs *c10Observer, stats *VStats, 
 		case x < 94:
 			h.touch(k)
 		case x < 96:
-			h.reload(h.newBitmaps())
+			if r.Chance(0.3) {
+				h.reloadNoReuse(h.newBitmaps())
+			} else {
+				h.reload(h.newBitmaps())
+			}
 		case x < 97:
 			h.rollback(h.newBitmaps())
 		default:
@@ -1597,7 +2008,7 @@ func c10BigReloadProbe(obs *c10Observer, stats *VStats) string {
 	}
 	obs.takeCalls()
 	ok, cached := w.mirror()
-	return fmt.Sprintf("bigreload entries=%d cached=%d table=%d queued=%d mirror=%s", n, cached, len(obs.shadow), queued, c10B(ok))
+	return fmt.Sprintf("bigreload entries=%d cached=%d table=%d queued=%d mirror=%s", n, cached, len(obs.table()), queued, c10B(ok))
 }
 
 // Probe (a concurrency schedule, outside the sequential histories of the property; reported as a note): the
@@ -1622,7 +2033,7 @@ func c10RaceProbe(obs *c10Observer, stats *VStats) string {
 	put("4:0a000001")
 	obs.takeCalls()
 	okA, nA := w.mirror()
-	resA := fmt.Sprintf("A_mirror=%s A_cache=%d A_table=%d", c10B(okA), nA, len(obs.shadow))
+	resA := fmt.Sprintf("A_mirror=%s A_cache=%d A_table=%d", c10B(okA), nA, len(obs.table()))
 	// B: a new answer is stored and synced between a removal's delete and its sync -> table lacks a cached address
 	w, put = mk()
 	put("4:01020304")
@@ -1630,12 +2041,292 @@ func c10RaceProbe(obs *c10Observer, stats *VStats) string {
 	w.ctrl.RemoveDnsRespCache(k.key())
 	obs.takeCalls()
 	okB, nB := w.mirror()
-	return fmt.Sprintf("race %s B_mirror=%s B_cache=%d B_table=%d", resA, c10B(okB), nB, len(obs.shadow))
+	return fmt.Sprintf("race %s B_mirror=%s B_cache=%d B_table=%d", resA, c10B(okB), nB, len(obs.table()))
+}
+
+// Probe (hand-over of a reload WITHOUT controller reuse; real functions in production order): the old generation
+// keeps serving between the new generation's CommitPreparedDatapath (clear + replay of the clone, through the NEW
+// generation's tracker) and its own retirement; an answer it caches in that window is published through the OLD
+// generation's tracker into the SAME kernel map, and the old controller is closed afterwards without callbacks.
+// If the old plane offers RetireDomainRoutingPublisher (proposed fix), production calls it before the commit.
+func c10HandoverProbe(obs *c10Observer, stats *VStats) string {
+	obs.useShadow()
+	w := c10NewCacheWorld(obs, stats, false, 0, 0, true) // real controllers (NewDnsController), real Close
+	put := func(ctrl *DnsController, name, addr, bits string) {
+		w.matcher.next = c10ParseBits(bits, 32)
+		if err := ctrl.UpdateDnsCacheTtlWithKey(name+"1", name, dnsmessage.TypeA, []dnsmessage.RR{c10MakeAns(addr, name)}, nil, nil, 3600); err != nil {
+			panic(err)
+		}
+	}
+	old := w.ctrl
+	put(old, "a.com.", "4:01020304", "0")
+	clones := w.plane.CloneDnsCache()
+	core2, plane2, opt2 := w.newGeneration(w.core.bpf.Load())
+	own := w.buildController(opt2)
+	plane2.dnsController = own
+	plane2.pendingDnsReloadCache = clones
+	plane2.preparedDatapathCommit = true
+	plane2.sharedBpfReload = true
+	retired := "0"
+	if m := reflect.ValueOf(w.plane).MethodByName("RetireDomainRoutingPublisher"); m.IsValid() {
+		m.Call(nil)
+		retired = "1"
+	}
+	w.matcher.byFqdn = map[string][]uint32{"a.com.": c10ParseBits("1", 32), "b.com.": c10ParseBits("1", 32)}
+	if err := plane2.verifC10CommitPreparedDatapathDNS(); err != nil {
+		return "err:" + err.Error()
+	}
+	w.matcher.byFqdn = nil
+	put(old, "b.com.", "4:0a000001", "0") // the old generation still serves: an answer arrives now
+	w.retire(old)                         // cut-over: the old generation is retired (DnsController.Close: no callbacks)
+	w.core, w.plane, w.ctrl, w.bg = core2, plane2, own, own
+	defer func() { _ = own.Close() }()
+	obs.takeCalls()
+	ok, cached := w.mirror()
+	return fmt.Sprintf("handover retired_hook=%s cached=%d table=%d mirror=%s %s", retired, cached, len(obs.table()), c10B(ok), obs.kernelStr())
+}
+
+// ---------------------------------------------------------------------------------------------
+// stream S : goroutine schedules of syncOwner (the tracker mutex and the two batch syscalls as separate steps)
+
+const (
+	c10Idle int32 = iota
+	c10Running
+	c10ParkedUpd
+	c10ParkedDel
+)
+
+type c10Thread struct {
+	id      int
+	state   atomic.Int32
+	gid     atomic.Int64
+	work    chan func()
+	release chan struct{}
+}
+
+type c10Sched struct {
+	mu      sync.Mutex
+	byGid   map[int64]*c10Thread
+	threads []*c10Thread
+}
+
+func c10Gid() int64 {
+	var buf [64]byte
+	n := runtime.Stack(buf[:], false)
+	f := strings.Fields(string(buf[:n])) // "goroutine 123 [running]:"
+	id, _ := strconv.ParseInt(f[1], 10, 64)
+	return id
+}
+
+func c10NewSched(n int) *c10Sched {
+	sc := &c10Sched{byGid: map[int64]*c10Thread{}}
+	for i := 0; i < n; i++ {
+		th := &c10Thread{id: i, work: make(chan func()), release: make(chan struct{})}
+		sc.threads = append(sc.threads, th)
+		ready := make(chan struct{})
+		go func() {
+			gid := c10Gid()
+			th.gid.Store(gid)
+			sc.mu.Lock()
+			sc.byGid[gid] = th
+			sc.mu.Unlock()
+			close(ready)
+			for f := range th.work {
+				f()
+				th.state.Store(c10Idle)
+			}
+		}()
+		<-ready
+	}
+	return sc
+}
+
+func (sc *c10Sched) stop() {
+	for _, th := range sc.threads {
+		close(th.work)
+	}
+}
+
+// called by the batch hooks, i.e. from inside syncOwner with the tracker mutex held (in the unchanged code)
+func (sc *c10Sched) park(kind int32) {
+	sc.mu.Lock()
+	th := sc.byGid[c10Gid()]
+	sc.mu.Unlock()
+	if th == nil {
+		return
+	}
+	th.state.Store(kind)
+	<-th.release
+}
+
+// is goroutine gid waiting for a sync.Mutex?
+func c10BlockedOnMutex(gid int64) bool {
+	buf := make([]byte, 1<<16)
+	n := runtime.Stack(buf, true)
+	for _, blk := range strings.Split(string(buf[:n]), "\n\n") {
+		head, _, _ := strings.Cut(blk, "\n")
+		if !strings.HasPrefix(head, "goroutine "+strconv.FormatInt(gid, 10)+" [") {
+			continue
+		}
+		return strings.Contains(head, "Mutex.Lock") || strings.Contains(head, "semacquire")
+	}
+	return false
+}
+
+// wait until every goroutine is idle, parked at a hook, or blocked in t.mu.Lock(); returns the states
+func (sc *c10Sched) settle() string {
+	deadline := time.Now().Add(60 * time.Second) // generous: only ever turns into a harness failure (exit 2)
+	for spins := 0; ; spins++ {
+		states := make([]string, len(sc.threads))
+		settled := true
+		for i, th := range sc.threads {
+			switch th.state.Load() {
+			case c10Idle:
+				states[i] = "idle"
+			case c10ParkedUpd:
+				states[i] = "pu"
+			case c10ParkedDel:
+				states[i] = "pd"
+			default:
+				if spins > 3 && c10BlockedOnMutex(th.gid.Load()) && th.state.Load() == c10Running {
+					states[i] = "blocked"
+				} else {
+					settled = false
+				}
+			}
+		}
+		if settled {
+			return strings.Join(states, ",")
+		}
+		if time.Now().After(deadline) {
+			panic("c10 schedule stream: goroutines did not settle within 60 s")
+		}
+		if spins < 50 {
+			runtime.Gosched()
+		} else {
+			time.Sleep(50 * time.Microsecond)
+		}
+	}
+}
+
+func c10RunScheduleStream(t *testing.T, stats *VStats) {
+	st := VOpenStream("c10s")
+	defer st.Close()
+	r := NewVRand(VSeed() ^ 0xC105)
+	obs := &c10Observer{stats: stats}
+	obs.install()
+	g := &c10Gen{r: r, stats: stats}
+	histories := 150
+	if VThorough() {
+		histories = 1200
+	}
+	for h := 0; h < histories; h++ {
+		obs.useShadow()
+		nThreads := r.Range(2, 3)
+		sc := c10NewSched(nThreads)
+		obs.sched = sc
+		core := c10NewCore(obs.domainMap())
+		st.Emit("snew "+strconv.Itoa(nThreads), c10Line("T="+sc.settle()+" "+obs.tableFp(), ""))
+		g.newPools()
+		if len(g.addrs) > 3 {
+			g.addrs = g.addrs[:3] // force overlap between the goroutines' owners
+		}
+		nOwners := r.Range(2, 4)
+		stats.Inc("s.histories")
+		everBlocked, everInterleaved := false, false
+		state := func(i int) int32 { return sc.threads[i].state.Load() }
+		emit := func(op string) {
+			out := VRecover(func() string { return "T=" + sc.settle() + " " + obs.tableFp() })
+			st.Emit(op, c10Line(out, ""))
+			if strings.Contains(out, "blocked") {
+				everBlocked = true
+				stats.Inc("s.steps_with_a_goroutine_blocked_on_the_mutex")
+			}
+		}
+		nSteps := r.Range(4, 30)
+		for step := 0; step < nSteps; step++ {
+			var idle, parked []int
+			blocked := 0
+			for i := range sc.threads {
+				switch state(i) {
+				case c10Idle:
+					idle = append(idle, i)
+				case c10ParkedUpd, c10ParkedDel:
+					parked = append(parked, i)
+				default:
+					blocked++
+				}
+			}
+			// a new call only while nobody waits for the mutex (two waiters would be woken in an unspecified order)
+			if len(idle) > 0 && blocked == 0 && (len(parked) == 0 || r.Chance(0.6)) {
+				tid := idle[r.Intn(len(idle))]
+				owner := "o" + strconv.Itoa(1+r.Intn(nOwners))
+				th := sc.threads[tid]
+				if r.Chance(0.3) {
+					cache := &DnsCache{RouteOwnerKey: owner}
+					th.state.Store(c10Running)
+					th.work <- func() { _ = core.BatchRemoveDomainRouting(cache) }
+					stats.Inc("s.op.call_remove")
+					emit(fmt.Sprintf("scall %d %s rm", tid, owner))
+				} else {
+					bm := g.bms[1+r.Intn(len(g.bms)-1)]
+					ans := g.answers()
+					cache := &DnsCache{RouteOwnerKey: owner, DomainBitmap: c10ParseBits(bm, 32)}
+					for _, a := range ans {
+						cache.Answer = append(cache.Answer, c10MakeAns(a, "h.example."))
+					}
+					th.state.Store(c10Running)
+					th.work <- func() { _ = core.BatchUpdateDomainRouting(cache) }
+					stats.Inc("s.op.call_update")
+					emit(strings.TrimRight(fmt.Sprintf("scall %d %s %s %s", tid, owner, bm, strings.Join(ans, " ")), " "))
+				}
+				if len(parked) > 0 {
+					everInterleaved = true
+				}
+				continue
+			}
+			if len(parked) > 0 {
+				tid := parked[r.Intn(len(parked))]
+				th := sc.threads[tid]
+				th.state.Store(c10Running)
+				th.release <- struct{}{}
+				stats.Inc("s.op.go")
+				emit(fmt.Sprintf("sgo %d", tid))
+			}
+		}
+		// let everybody finish
+		for {
+			tid := -1
+			for i := range sc.threads {
+				if s := state(i); s == c10ParkedUpd || s == c10ParkedDel {
+					tid = i
+				}
+			}
+			if tid < 0 {
+				break
+			}
+			th := sc.threads[tid]
+			th.state.Store(c10Running)
+			th.release <- struct{}{}
+			stats.Inc("s.op.go")
+			emit(fmt.Sprintf("sgo %d", tid))
+		}
+		st.Emit("sdump", c10Line(obs.kernelStr(), c10TrackerStr(core.domainRouting)))
+		if everBlocked {
+			stats.Inc("s.histories_with_a_blocked_goroutine")
+		}
+		if everInterleaved {
+			stats.Inc("s.histories_with_a_call_started_while_another_is_inside")
+		}
+		sc.stop()
+		obs.sched = nil
+	}
 }
 
 func TestVerifC10(t *testing.T) {
 	stats := NewVStats()
 	c10RunTrackerStream(t, stats)
+	c10RunScheduleStream(t, stats)
 
 	st := VOpenStream("c10c")
 	defer st.Close()
@@ -1645,22 +2336,34 @@ func TestVerifC10(t *testing.T) {
 	g := &c10Gen{r: r, stats: stats}
 	histories := 300
 	if VThorough() {
-		histories = 8000
+		histories = 5000
 	}
 	for h := 0; h < histories; h++ {
 		scripted := h%4 == 3
 		real := h%3 == 1 && !scripted // real janitor ticker, evictor and refresh worker goroutines
+		// every second history: the table is a real kernel hash map (production capacity) and the production
+		// batch functions run on it
+		obs.useShadow()
+		if h%2 == 0 && obs.useKernelMap(c10ProductionMaxEntries) {
+			stats.Inc("c.histories_on_real_kernel_map")
+		}
 		synctest.Test(t, func(t *testing.T) {
 			c10RunCacheHistory(st, r, obs, stats, g, scripted, real)
 		})
 	}
-	probe := func(name string, f func(*c10Observer, *VStats) string) {
+	probe := func(name string, kernelMap bool, f func(*c10Observer, *VStats) string) {
+		obs.useShadow()
+		if kernelMap {
+			obs.useKernelMap(c10ProductionMaxEntries)
+		}
 		synctest.Test(t, func(t *testing.T) {
 			line := VRecover(func() string { return f(obs, stats) })
 			_ = os.WriteFile(filepath.Join(VOutDir(), name), []byte(line+"\n"), 0o644)
 		})
 	}
-	probe("c10.race.txt", c10RaceProbe)
-	probe("c10.bigreload.txt", c10BigReloadProbe)
+	probe("c10.race.txt", false, c10RaceProbe)
+	probe("c10.bigreload.txt", true, c10BigReloadProbe)
+	probe("c10.handover.txt", false, c10HandoverProbe)
+	obs.useShadow()
 	stats.Write("c10")
 }
